@@ -7,7 +7,7 @@ from spec import step_model as M
 
 PROPERTY = "C06"
 BOUNDS = {
-    "quick": "one step from every built pre-state: 0..1 registry node (id sym [10,99]; reboot, sleeping flags symbolic) with 0..1 child and 0..1 stored value (type sym [0,9]); metric symbolic; event node sym [10,99], child sym [10,99] or 255, all 5 commands (plus 'boundary' partitions with node ids from {0,255} and child ids from {0,254,255} for set/req/stream), internal types from {0,1,2,3,5,6,9,11,13,14,18,21,22,32}, stream sym [0,5]; version known (1.4, 2.0, 2.2; thorough: all 5) and unknown (version reply / gateway presentation payload from a 7-text class list); time reply: day/hour/minute/second symbolic over (year,month) in {1970-01, 2000-02, 2024-02, 2038-01}",
+    "quick": "one step from every built pre-state: 0..1 registry node (id sym [10,99]; reboot, sleeping flags symbolic) with 0..1 child and 0..1 stored value (type sym [0,9]); metric symbolic; event node sym [10,99], child sym [10,99] or 255, all 5 commands (plus 'boundary' partitions with node ids from {0,255} and child ids from {0,254,255} for set/req/stream), internal types from {0,1,2,3,5,6,9,11,13,14,18,21,22,32} with payload class lists plus every internal type of the version's table with payload '1' (sleeping flag symbolic), stream sym [0,5]; version known (1.4, 2.0, 2.2; thorough: all 5) and unknown (version reply / gateway presentation payload from a 7-text class list); time reply: day/hour/minute/second symbolic over (year,month) in {1970-01, 2000-02, 2024-02, 2038-01}",
     "thorough": "quick on all 5 versions, plus A: ids sym [0,255] (every digit class), plus B: 0..2 registry nodes, plus C: 0..2 children and types sym [0,40]",
 }
 REALISED = ["(year, month) of the clock stub are a grid (datetime.date realises them)", "version texts, battery/heartbeat texts are class lists"]
@@ -21,6 +21,7 @@ VERSION_TEXTS = ["2.2", "2.0.0", "1.4", "1.5.1", "2.3.2", "garbage", ""]
 
 
 SUBS = {"a": [0, 2], "b": [1, 3, 5, 6], "c": [9, 11, 13, 14], "d": [18, 21, 22, 32]}
+ALLTYPES_SKIP = (1, 2)  # time reply: sym_time; version report: needs a version text
 
 
 def partitions(tier):
@@ -39,6 +40,11 @@ def partitions(tier):
                                   budget=500 if q else 3000, cost=4 if not tag else 9))
 
     for v in VERSIONS:
+        # every internal type of the version's table, one by one (no other received message produces a write)
+        top = M.INTERNAL_MAX[v]
+        for lo_t in range(0, top + 1, 12):
+            parts.append(dict(ids, name="alltypes-%s-t%d" % (v, lo_t), fn="sym_step", version=v, known=True, cmd=3, sub="all",
+                              tlo=lo_t, thi=min(top, lo_t + 11), maxch=0, values=False, sym_sleep=True, budget=500 if q else 2000, cost=4))
         if q and v not in ("1.4", "2.0", "2.2"):
             parts.append({"name": "time-%s" % v, "fn": "sym_time", "version": v, "budget": 500, "cost": 3})
             continue  # 1.5 / 2.1 only subclass their predecessor; C19 checks the equivalence, thorough runs them here too
@@ -61,6 +67,16 @@ def _event(inp, part, known):
     n = draw_id(inp, "n", part, lo, hi) if not (cmd == 0 and inp.bool("gw")) else 0
     c = 255 if (hi < 255 and inp.bool("sys")) else draw_id(inp, "c", part, lo, hi)
     conv = None
+    if cmd == 3 and part["sub"] == "all":
+        t = inp.int("t", part["tlo"], part["thi"])
+        for skip in ALLTYPES_SKIP:
+            if t == skip:
+                raise Reject
+        if c != 255 and t != 3:
+            raise Reject
+        p = "1"
+        conv = ("ok", 1)
+        return n, c, cmd, 0, t, p, conv
     if cmd == 3:
         types = SUBS[part["sub"]]
         t = types[inp.pick("ti", len(types))]
@@ -148,10 +164,26 @@ def days_from_civil(y, m, d):
     return era * 146097 + doe - 719468
 
 
+class LocalTime(tuple):
+    """time.struct_time look-alike that keeps symbolic fields symbolic; the zone is 5h30 east of UTC."""
+
+    tm_gmtoff = 19800
+    tm_zone = "+0530"
+    tm_year = property(lambda s: s[0])
+    tm_mon = property(lambda s: s[1])
+    tm_mday = property(lambda s: s[2])
+    tm_hour = property(lambda s: s[3])
+    tm_min = property(lambda s: s[4])
+    tm_sec = property(lambda s: s[5])
+    tm_wday = property(lambda s: s[6])
+    tm_yday = property(lambda s: s[7])
+    tm_isdst = property(lambda s: s[8])
+
+
 class FakeClock:
     def __init__(self, local, other):
-        self.local = local
-        self.other = other
+        self.local = LocalTime(local)
+        self.other = LocalTime(other)
 
     def localtime(self, *a):
         return self.local
